@@ -321,6 +321,12 @@ func checkValue(v reflect.Value) error {
 	}
 	// (2b) hc decodes a conformant peer's bytes to v
 	rwire := refctl.StructEncode(v)
+	// (2c) and the bytes themselves are the encoding: fields in declaration order, fixed-width little-endian
+	// numbers, values longer than 255 bytes in fragments of 255 and one shorter (or none), list elements
+	// separated by an empty item of type 0 - there is one such byte string per value
+	if !bytes.Equal(wire, rwire) {
+		return fmt.Errorf("wire: Marshal's output is not the TLV8 encoding of the value: first difference at byte %d of %d (reference has %d bytes): got %x, expected %x", firstDiffB(wire, rwire), len(wire), len(rwire), truncb(wire[min(firstDiffB(wire, rwire), len(wire)):]), truncb(rwire[min(firstDiffB(wire, rwire), len(rwire)):]))
+	}
 	out2 := reflect.New(typ)
 	if err := safe("Unmarshal", func() error { return tlv8.Unmarshal(rwire, out2.Interface()) }); err != nil {
 		return fmt.Errorf("wire: Unmarshal of the reference encoding failed: %v", err)
@@ -329,6 +335,19 @@ func checkValue(v reflect.Value) error {
 		return fmt.Errorf("wire: Unmarshal of the reference encoding differs from v at %s (wire %x)", where, truncb(rwire))
 	}
 	return nil
+}
+
+func firstDiffB(a, b []byte) int {
+	n := len(a)
+	if len(b) < n {
+		n = len(b)
+	}
+	for i := 0; i < n; i++ {
+		if a[i] != b[i] {
+			return i
+		}
+	}
+	return n
 }
 
 func truncb(b []byte) []byte {
